@@ -326,7 +326,19 @@ pub fn gen_c06(tier: &str, r: u64, ex: u64, rng: &mut Rng) -> Value {
 }
 
 fn garbage_line(rng: &mut Rng) -> Vec<u8> {
-    match rng.below(5) {
+    match rng.below(7) {
+        5 | 6 => {
+            // valid UTF-8 text with multi-byte characters at arbitrary byte offsets (no tab / one tab)
+            let n = rng.below(70) as usize;
+            let mut s = "x".repeat(n);
+            if rng.chance(1, 2) {
+                s.push('\t');
+            }
+            for _ in 0..rng.range(3, 40) {
+                s.push(*rng.pick(&['\u{e9}', '\u{65e5}', '\u{1f980}', 'a']));
+            }
+            s.into_bytes()
+        }
         0 => b"garbage without a tab".to_vec(),
         1 => b"0000000000000000000000000000000000000000000000000000000000000000\t{\"key\":\"x\"}".to_vec(),
         2 => b"\t\t\t".to_vec(),
@@ -349,11 +361,12 @@ pub fn gen_c08(rng: &mut Rng) -> Value {
     let vals = mk_vals(rng, 2, big);
     let keys = pick_keys_p(rng, 2, 1, 3);
     let mut steps = Vec::new();
-    // prior state of key 0
+    // prior state of key 0 (sometimes holding exactly the bytes of the coming attempt)
+    let prior_val = if rng.chance(1, 3) { 0 } else { 1 };
     match rng.below(3) {
         0 => {}
         1 => {
-            let mut w = json!({"k":"api","op":"write","entry":"write","key":0,"val":1});
+            let mut w = json!({"k":"api","op":"write","entry":"write","key":0,"val":prior_val});
             set_flav(&mut w, flav(rng));
             steps.push(w);
         }
@@ -366,8 +379,8 @@ pub fn gen_c08(rng: &mut Rng) -> Value {
             steps.push(r);
         }
     }
-    // bystander
-    let mut b = json!({"k":"api","op":"write","entry":"write","key":1,"val":1});
+    // bystander (sometimes sharing the content of the coming attempt)
+    let mut b = json!({"k":"api","op":"write","entry":"write","key":1,"val": if rng.chance(1, 3) { 0 } else { 1 }});
     set_flav(&mut b, flav(rng));
     steps.push(b);
     let attempts = rng.range(1, 2);
@@ -410,7 +423,7 @@ pub fn gen_c08(rng: &mut Rng) -> Value {
         }
         set_flav(&mut st, flav(rng));
         steps.push(st);
-        steps.extend(all_flav_audit(&["metadata", "list"]));
+        steps.extend(all_flav_audit(&["metadata", "read", "list"]));
     }
     scenario("C08", keys, vals, steps, rng)
 }
@@ -447,6 +460,10 @@ pub fn gen_c11(rng: &mut Rng) -> Value {
             }
             if rng.chance(1, 2) {
                 o["raw"] = json!(hex::encode(rng.bytes_below(300)));
+            }
+            if rng.chance(1, 30) {
+                let n = 20_000 + rng.below(15_000) as usize;
+                o["raw"] = json!(hex::encode(rng.bytes(n)));
             }
             if rng.chance(1, 3) {
                 o["size"] = json!(len);
@@ -541,7 +558,7 @@ pub fn gen_c14(rng: &mut Rng) -> Value {
         set_flav(&mut st, f);
         steps.push(st);
         let fa = flav(rng);
-        steps.push(json!({"k":"audit","bin":fa.0,"mode":fa.1,"what":["metadata","list"]}));
+        steps.push(json!({"k":"audit","bin":fa.0,"mode":fa.1,"what":["metadata","read","list"]}));
     }
     scenario("C14", keys, vals, steps, rng)
 }
